@@ -405,7 +405,8 @@ func trRun(args []string) error {
 	out := fs.String("out", "", "trace file")
 	seed := fs.Int64("seed", 1, "seed")
 	n := fs.Int("n", 50, "documents")
-	mode := fs.String("mode", "spdx", "spdx | cdx | free | fixtures")
+	mode := fs.String("mode", "spdx", "spdx | cdx | free | fixtures | trees")
+	scripts := fs.String("scripts", "", "trees mode: (tree, stored edge order) pairs exported by TLC from TrCDX.tla")
 	replay := fs.String("replay", "", "replay file")
 	fs.Parse(args)
 	if !*child {
@@ -478,6 +479,45 @@ func trRun(args []string) error {
 					roundTrip(w, &sid, d, f, 2, "", "gen")
 				}
 			}
+		}
+	case "trees":
+		// EVERY labelled tree on the exported node count in EVERY stored order of its contains edges; the attributes,
+		// the order of the node list, the grouping of consecutive same-parent targets and the version are seeded
+		i := 0
+		err := readND(*scripts, func(ev map[string]any) error {
+			if str(ev, "op") != "Tree" {
+				return nil
+			}
+			i++
+			v15 := i%2 == 0
+			f := "cdx14"
+			if v15 {
+				f = "cdx15"
+			}
+			ids := append([]string{"root"}, cdxIDPool[1:]...)
+			d := newDoc(r)
+			for k := 0; k <= integer(ev, "n"); k++ {
+				d.NodeList.Nodes = append(d.NodeList.Nodes, cdxNode(r, ids[k], 0.3, v15, i))
+			}
+			r.Shuffle(len(d.NodeList.Nodes), func(a, b int) { d.NodeList.Nodes[a], d.NodeList.Nodes[b] = d.NodeList.Nodes[b], d.NodeList.Nodes[a] })
+			d.NodeList.RootElements = []string{"root"}
+			group := i%3 == 0
+			order, _ := ev["order"].([]any)
+			for _, pr := range order {
+				pair, _ := pr.([]any)
+				from, to := ids[int(pair[0].(float64))], ids[int(pair[1].(float64))]
+				es := d.NodeList.Edges
+				if group && len(es) > 0 && es[len(es)-1].From == from {
+					es[len(es)-1].To = append(es[len(es)-1].To, to)
+					continue
+				}
+				d.NodeList.Edges = append(d.NodeList.Edges, &sbom.Edge{Type: sbom.Edge_contains, From: from, To: []string{to}})
+			}
+			roundTrip(w, &sid, d, f, indents[i%4], f, "tlc-tree")
+			return nil
+		})
+		if err != nil {
+			return err
 		}
 	case "fixtures":
 		for i := 0; i < *n; i++ {
